@@ -262,7 +262,7 @@ def replay_file(path, quiet=False):
     if not quiet:
         for v in own_violations(w, prop):
             print(f"  step {v.step}: {v.sig}\n    {v.detail[:600]}")
-        print("REPRODUCED" if ok else f"NOT REPRODUCED (got {sigs})")
+        print(f"VIOLATION property={prop} replay={path}\nREPRODUCED" if ok else f"NOT REPRODUCED (got {sigs})")
     return ok
 
 
@@ -271,7 +271,7 @@ def fresh_replay(path):
     p = subprocess.run([sys.executable, "-m", "sim.runner", "--replay", path, "--quiet"],
                        cwd=VERIF, capture_output=True, text=True, timeout=600,
                        env={**os.environ, "PYTHONHASHSEED": "0"})
-    return p.returncode == 3, p.stdout + p.stderr
+    return p.returncode == 1, p.stdout + p.stderr
 
 
 # ----------------------------------------------------------------------
@@ -340,7 +340,7 @@ def replay_cross(r, quiet):
         res[hs] = json.loads(line[0][8:]) if line else None
     ok = res["0"] != res[str(r["hashseed"])]
     if not quiet:
-        print("REPRODUCED" if ok else "NOT REPRODUCED")
+        print(f"VIOLATION property={r['property']} replay=(cross-interpreter run {r['idx']})\nREPRODUCED" if ok else "NOT REPRODUCED")
     return ok
 
 
@@ -607,7 +607,7 @@ def main(argv=None):
         return 0
     if a.replay:
         ok = replay_file(a.replay, a.quiet)
-        return 3 if ok else 0
+        return 1 if ok else 0
     tier = a.tier if a.tier in ("quick", "thorough") else "quick"
     seed = a.seed if a.seed is not None else os.environ.get("VERIF_SEED")
     try:
